@@ -310,8 +310,10 @@ func c07Run(tier string, seed int64, outdir string, replay string) error {
 			sorted = append(sorted, k)
 		}
 		sort.Ints(sorted)
+		fcfg := v.Cfg
+		fcfg.KeyType = []string{"p256", "ed25519", "p384"}[vi%3] // real key files of three types on disk
 		for _, k := range sorted {
-			fsIns = append(fsIns, c07In{Variant: v.Name, Cfg: v.Cfg, Setup: v.Setup, Hop: v.Hop, Rec: recOrc,
+			fsIns = append(fsIns, c07In{Variant: v.Name, Cfg: fcfg, Setup: v.Setup, Hop: v.Hop, Rec: recOrc,
 				Plan: c06Plan{From: -1, Crash: k}, Kind: "crash-after-k", Backend: c07BackendFS})
 		}
 	}
